@@ -1,0 +1,7 @@
+//go:build verif
+
+// Contracts for package internal (comment-only; compiled only with -tags verif).
+package internal
+
+//@ func (*internal.ChannelState).AddLog {C02,C03}
+//@   effectfree -- abstraction: the stage log (object behind Stages) is not modelled; frame obligation below keeps it honest
